@@ -1163,6 +1163,29 @@ def rule_L2(ctx):
     ctx.analysed(f, init, pp, us)
 
 
+def rule_R0(ctx):
+    """An editing method that resets the whole tree (self.__init__) discards every data point, outliers
+    included; it may do so only when the tree it removes equals the whole tree (Tree.__eq__: clades AND outliers)."""
+    prog = ctx.prog
+    ctx.rule("R0", "a whole-tree reset inside an edit is guarded by equality of the removed tree with the whole tree", 1)
+    tree = prog.cls("tree.tree.Tree")
+    from ..astutil import parents as _parents
+    from ..paths import guards_of as _guards_of
+
+    for m in tree.methods.values():
+        if m.name in ("__init__", "copy", "from_dict", "get_single_node_tree", "get_subtree"):
+            continue
+        pm = _parents(m.node)
+        for c in calls(m.node, name="self.__init__"):
+            gs = [(u(t).replace(" ", ""), pol) for t, pol in _guards_of(c, pm)]
+            param = m.params[1] if len(m.params) > 1 else "?"
+            ok = any(pol and t in ("%s==self" % param, "self==%s" % param) for t, pol in gs)
+            ctx.check(ok, "R0", "Tree.%s: self.__init__(…) only when %s == self" % (m.name, param), m.where(c),
+                      "the tree is reset (all data points dropped, outliers included) under %s, which does not establish that the removed tree is the whole tree with the same outliers: data points outside the removed subtree are lost" % ([t for t, p in gs] or "no guard"),
+                      construct=m.qualname, stmt="self.__init__ reset")
+        ctx.analysed(m)
+
+
 def run(ctx):
     ctx.assume("rustworkx: add_node returns the new index; compose returns the old->new index map; freed indices may be reused")
     ctx.assume("Tree.add_subtree grafts graph nodes and their data lists only (checked syntactically on every run: it never reads the subtree's outlier list)")
@@ -1173,6 +1196,16 @@ def run(ctx):
     rule_V3(ctx)
     rule_L1(ctx, fx)
     rule_L2(ctx)
+    rule_R0(ctx)
+    # a tree restored / copied from a stored form must own its data lists: the samplers edit trees in place
+    # (outliers are stripped from the input of the subtree move), and a shared list silently loses the
+    # points of the stored form (same rule object as C06.M4)
+    from . import C06
+
+    from ..formula import imported
+
+    ctx._own_rules = set(ctx.rule_min)
+    imported(ctx, C06.rule_M4, fx)
 
 
 # Self-test catalogue: one textual edit each, applied to a scratch copy (see selftest.py).
